@@ -354,11 +354,9 @@ def run_case(case: dict) -> dict:
                             request_crc_support=case.get("crc", True)) as fp:
                   for n in case.get("reads", []):
                       out += fp.read(n) or b""
-                  while True:
-                      piece = fp.read()
-                      if not piece:
-                          break
-                      out += piece
+                  # one read() to the end, as a caller does it (a read() that stops early is the
+                  # caller's truncated value, not something a second read() may repair)
+                  out += fp.read() or b""
               ev.append({"e": "ret", "data": B(out)})
           except Exception as exc:  # noqa
               ev.append(_classify(exc))
